@@ -32,9 +32,18 @@ class ZzLookup(LookupError):
     pass
 
 
+class ZzUnprintable(Exception):
+    """an exception whose text cannot be produced (a broken __repr__ / __str__ in application code): still an ordinary exception"""
+
+    def __repr__(self) -> str:
+        raise RuntimeError('this exception cannot be printed')
+
+    __str__ = __repr__
+
+
 EXC = {
     'ValueError': ValueError, 'KeyError': KeyError, 'TypeError': TypeError, 'AssertionError': AssertionError,
-    'RuntimeError': RuntimeError, 'ZzCustomBoom': ZzCustomBoom, 'ZzLookup': ZzLookup, 'OSError': OSError,
+    'RuntimeError': RuntimeError, 'ZzCustomBoom': ZzCustomBoom, 'ZzLookup': ZzLookup, 'ZzUnprintable': ZzUnprintable, 'OSError': OSError,
     'ZeroDivisionError': ZeroDivisionError, 'AttributeError': AttributeError, 'StopIteration': StopIteration,
     'UnicodeDecodeError': None, 'ValidationError': None, 'DeserializationError': None,  # built specially
     'TimeoutError': TimeoutError, 'NotImplementedError': NotImplementedError, 'RecursionError': RecursionError,
